@@ -78,7 +78,11 @@ func (s *scriptRun) margin() time.Duration {
 func runScript(r *vlib.Run, sp scriptSpec, jm *jitterMon) {
 	s := &scriptRun{r: r, sp: sp, jm: jm}
 	tw := sp.Tweaks
-	e, err := newEnv(tw, sp.Iso)
+	nIso := sp.Iso
+	if sp.QueueExpiry > 0 {
+		nIso++ // a black-holed zone of its own for the queue-expiry burst (never opened)
+	}
+	e, err := newEnv(tw, nIso)
 	if err != nil {
 		r.Inconclusive(fmt.Sprintf("script %s: environment: %v", sp.Name, err))
 		return
@@ -139,7 +143,9 @@ func runScript(r *vlib.Run, sp scriptSpec, jm *jitterMon) {
 	// ---- plan
 	s.pl = buildPlan(r.RandN("plan", sp.Index), &sp, len(e.t.zones))
 	for i, ip := range e.t.iso {
-		s.iso = append(s.iso, newIsoProbe(s, i, ip))
+		if i < sp.Iso {
+			s.iso = append(s.iso, newIsoProbe(s, i, ip))
+		}
 	}
 
 	s.t0 = time.Now()
@@ -440,8 +446,40 @@ func runScript(r *vlib.Run, sp scriptSpec, jm *jitterMon) {
 			s.inconclusive = true
 			r.Count("missing_replies_on_stalled_machine", int(udpUnanswered))
 		} else {
-			s.violation("no-reply/udp-unaccounted", fmt.Sprintf("%d admitted UDP queries got no reply but the server counted only %d shed/dropped datagrams and the kernel %d lost ones",
-				udpUnanswered, udpServerDrops, kernelLoss), nil, nil, map[string]any{"server_counters_delta": deltas(ctr0, ctr1), "kernel_before": k0, "kernel_after": k1, "unanswered": unansweredList(all, "udp", 12)})
+			// Which kind of loss? A query whose name never appeared at any
+			// upstream server was never handed to resolution at all: it was
+			// read and admitted, then discarded before dispatch without a
+			// reply and without a drop counter. A query that WAS being
+			// resolved and still got nothing lost its reply on the way out.
+			seenUp := map[string]bool{}
+			for _, p := range e.t.u.Log.All() {
+				seenUp[p.QNameL] = true
+			}
+			var never, dispatched []string
+			for _, q := range all {
+				if q.Tr != "udp" || q.Closer || q.Junk != "" {
+					continue
+				}
+				sent, sendErr, reps, _ := q.snapshot()
+				if sent.IsZero() || sendErr != "" || len(reps) > 0 {
+					continue
+				}
+				d := fmt.Sprintf("%s %s (%s, sent at +%.0f ms)", q.Name, dns.TypeToString[q.Qtype], q.Pattern, ms(sent.Sub(s.t0)))
+				if seenUp[strings.ToLower(q.Name)] {
+					dispatched = append(dispatched, d)
+				} else {
+					never = append(never, d)
+				}
+			}
+			detail := map[string]any{"server_counters_delta": deltas(ctr0, ctr1), "kernel_before": k0, "kernel_after": k1,
+				"unanswered_never_seen_upstream": head(never, 16), "unanswered_seen_upstream": head(dispatched, 16)}
+			if len(dispatched) == 0 {
+				s.violation("no-reply/udp-never-dispatched-uncounted", fmt.Sprintf("%d admitted UDP queries got no reply, none of them was ever handed to resolution (no upstream packet for their names), and the server counted only %d shed/dropped datagrams (kernel: %d): read and queued, then discarded silently — neither SERVFAIL nor a drop counter",
+					udpUnanswered, udpServerDrops, kernelLoss), nil, nil, detail)
+			} else {
+				s.violation("no-reply/udp-unaccounted", fmt.Sprintf("%d admitted UDP queries got no reply (%d of them were being resolved upstream) but the server counted only %d shed/dropped datagrams and the kernel %d lost ones",
+					udpUnanswered, len(dispatched), udpServerDrops, kernelLoss), nil, nil, detail)
+			}
 		}
 	}
 
@@ -686,24 +724,11 @@ type waveStat struct {
 	LatencyMaxMs      float64        `json:"latency_max_ms"`
 }
 
-// unansweredList names the first few unanswered queries of a transport (the
-// witness of an accounting violation).
-func unansweredList(all []*qrec, tr string, n int) []string {
-	var out []string
-	for _, q := range all {
-		if q.Tr != tr || q.Closer || q.Junk != "" {
-			continue
-		}
-		sent, sendErr, reps, _ := q.snapshot()
-		if sent.IsZero() || sendErr != "" || len(reps) > 0 {
-			continue
-		}
-		out = append(out, fmt.Sprintf("%s %s (%s, wave %d)", q.Name, dns.TypeToString[q.Qtype], q.Pattern, q.Wave))
-		if len(out) >= n {
-			break
-		}
+func head(l []string, n int) []string {
+	if len(l) > n {
+		return l[:n]
 	}
-	return out
+	return l
 }
 
 func baseName(n string) string {
@@ -790,6 +815,11 @@ func (s *scriptRun) dispatch() time.Time {
 				p.q.mu.Unlock()
 				sock.close()
 			}(p)
+		case q.Tr == "udp" && p.noPace:
+			sock := s.cl.fixedUDP(0)
+			sock.register(q)
+			sock.send(q)
+			mark()
 		case q.Tr == "udp":
 			// paced: at least 100 µs between datagrams of the shared sockets
 			for time.Since(lastUDP) < 100*time.Microsecond {
